@@ -374,6 +374,112 @@ func c19Mix(mx *cMix, rounds int) (sig, msg string, overlaps, unknown int) {
 	return "", "", overlaps, unknown
 }
 
+// c19Monotone is a cheap, sound consequence of linearizability for long runs (which the general checker cannot afford):
+// one writer inserts keys 0..n-1 in order and then removes them in order, announcing each operation before it starts
+// and after it returns; observers interleave Get / Len / Keys.  Whenever an observer SEES key i, all keys below i were
+// inserted before, so a later Len()/Keys() must count at least those still not announced as being removed; and Len()
+// can never exceed the number of inserts announced minus the removals completed.
+func c19Monotone(target string, n int, observers int) (string, string, int) {
+	mm := container.NewMutexMap()
+	fc := builtInFunctions.NewBuiltInFunctionContainer()
+	key := func(i int) string { return fmt.Sprintf("k%03d", i) }
+	insert := func(i int) {
+		if target == "container" {
+			_ = fc.Add(key(i), &stubFn{id: int64(i)})
+		} else {
+			mm.Insert(key(i), int64(i))
+		}
+	}
+	remove := func(i int) {
+		if target == "container" {
+			fc.Remove(key(i))
+		} else {
+			mm.Remove(key(i))
+		}
+	}
+	get := func(i int) bool {
+		if target == "container" {
+			_, err := fc.Get(key(i))
+			return err == nil
+		}
+		_, ok := mm.Get(key(i))
+		return ok
+	}
+	length := func(useKeys bool) int {
+		if target == "container" {
+			if useKeys {
+				return len(fc.Keys())
+			}
+			return fc.Len()
+		}
+		if useKeys {
+			return len(mm.Keys())
+		}
+		return mm.Len()
+	}
+	var insStarted, insDone, remStarted, remDone int64
+	var bad atomic.Value
+	var checks int64
+	var wg sync.WaitGroup
+	stop := int32(0)
+	for o := 0; o < observers; o++ {
+		wg.Add(1)
+		go func(o int) {
+			defer wg.Done()
+			i := 0
+			for atomic.LoadInt32(&stop) == 0 {
+				i = (i*7 + 3 + o) % n
+				// lower bound: everything inserted before key i and not yet announced as being removed
+				seen := get(i)
+				l := length(i%2 == 0)
+				// both announcements are read AFTER the length call returned: "no removal announced by now" means none had
+				// started while it ran, and the inserts announced by now bound the length from above
+				remAnn := atomic.LoadInt64(&remStarted)
+				insAnn := atomic.LoadInt64(&insStarted)
+				remFin := atomic.LoadInt64(&remDone)
+				_ = remFin
+				atomic.AddInt64(&checks, 1)
+				if seen {
+					low := int64(i+1) - remAnn
+					if remAnn == 0 && int64(l) < low {
+						bad.Store(fmt.Sprintf("%s: an observer saw key %d (keys are inserted in order 0..%d, none removed yet) and then read a length of %d", target, i, n-1, l))
+						return
+					}
+				}
+				if int64(l) > insAnn {
+					bad.Store(fmt.Sprintf("%s: length %d although only %d inserts had been started", target, l, insAnn))
+					return
+				}
+				if l < 0 {
+					bad.Store(fmt.Sprintf("%s: negative length %d", target, l))
+					return
+				}
+			}
+		}(o)
+	}
+	for i := 0; i < n; i++ {
+		atomic.AddInt64(&insStarted, 1)
+		insert(i)
+		atomic.AddInt64(&insDone, 1)
+	}
+	for i := 0; i < n; i++ {
+		atomic.AddInt64(&remStarted, 1)
+		remove(i)
+		atomic.AddInt64(&remDone, 1)
+		// upper bound after a removal returned: checked by the writer itself
+		if l := length(false); l > n-(i+1) {
+			bad.Store(fmt.Sprintf("%s: after Remove of key %d returned (keys removed in order) the length is %d, at most %d keys can be left", target, i, l, n-(i+1)))
+			break
+		}
+	}
+	atomic.StoreInt32(&stop, 1)
+	wg.Wait()
+	if v := bad.Load(); v != nil {
+		return target + "/length-inconsistent-with-observed-keys", v.(string), int(checks)
+	}
+	return "", "", int(checks)
+}
+
 func genMix(rt *rapid.T) *cMix {
 	target := rapid.SampledFrom([]string{"mutexmap", "container", "mutexmap", "container", "counter", "flag", "uint32", "uint64", "int64", "string"}).Draw(rt, "target")
 	nthreads := rapid.SampledFrom([]int{2, 2, 3, 4, 4, 6, 8, 16}).Draw(rt, "threads")
@@ -692,6 +798,18 @@ func TestC19(t *testing.T) {
 		if sig != "" {
 			failRapid(rt, st, "C19", "mix", mx, sig, msg)
 		}
+		if rapid.IntRange(0, 1).Draw(rt, "with-monotone") == 0 {
+			target := rapid.SampledFrom([]string{"mutexmap", "container"}).Draw(rt, "mono-target")
+			n := rapid.SampledFrom([]int{8, 32, 128}).Draw(rt, "mono-keys")
+			obs := rapid.IntRange(1, 3).Draw(rt, "mono-observers")
+			sig, msg, checks := c19Monotone(target, n, obs)
+			st.Eval(1)
+			st.AddExtra("monotone_runs", 1)
+			st.AddExtra("monotone_observer_checks", int64(checks))
+			if sig != "" {
+				failRapid(rt, st, "C19", "monotone", map[string]interface{}{"target": target, "keys": n, "observers": obs}, sig, msg)
+			}
+		}
 		if rapid.IntRange(0, 3).Draw(rt, "with-live") == 0 {
 			lc := genLive(rt)
 			sig, msg, n := c19Live(lc)
@@ -724,6 +842,21 @@ func replayC19(kind string, raw json.RawMessage) (string, string) {
 		}
 		for i := 0; i < 200; i++ {
 			if sig, msg, _ := c19Live(&lc); sig != "" {
+				return sig, msg
+			}
+		}
+		return "", ""
+	case "monotone":
+		var m struct {
+			Target    string `json:"target"`
+			Keys      int    `json:"keys"`
+			Observers int    `json:"observers"`
+		}
+		if err := json.Unmarshal(raw, &m); err != nil {
+			return "replay/bad-file", err.Error()
+		}
+		for i := 0; i < 3000; i++ {
+			if sig, msg, _ := c19Monotone(m.Target, m.Keys, m.Observers); sig != "" {
 				return sig, msg
 			}
 		}
